@@ -1,4 +1,6 @@
 """C02 - accepted programs never go wrong (type soundness)."""
+import random
+
 from . import common, docex, machine
 
 replay_one = machine.replay_one
@@ -14,8 +16,9 @@ def run(chk):
                 "fail, every numeric/graphics/format built-in and the index/slice/repetition/range operators on nan, "
                 "infinities, 2^63, 2^31-1, negative and tiny arguments; exact oracle where the documentation defines the "
                 "outcome (typeof of every variable), 'never goes wrong' oracle elsewhere; the rule-breaking programs of FamBreak, which must "
-                "never go wrong if the parser accepts them; non-trivial = distinct program")
-    chk.exhaustive = True
+                "never go wrong if the parser accepts them; the token edits of valid programs of FamMutate (all deletions, transpositions, "
+                "prefixes; seed-chosen insertions, substitutions and pairs), run whenever the real parser accepts them; non-trivial = distinct program")
+    chk.exhaustive = False   # FamSound and FamBreak are enumerated completely, the token edits are sampled
     # two accepted programs outside the machine's bounds (they do not terminate in the model either):
     # they are replayed with the "never goes wrong" oracle only
     extra = [
@@ -36,7 +39,30 @@ def run(chk):
                   "class": "ill-formed/%s@%s" % (c["rule"], c["site"]), "src": c["src"], "expect": {"effects": [], "result": []}}
                  for n, c in enumerate(resb.cases) if not c["valid"] and not c["extra"]]
     chk.extra["ill_formed_programs_run_if_accepted"] = len(illformed)
-    machine.replay_family(chk, exact + sound + extra + beyond + illformed, deadline="60s")
+    # what the parser accepts among the token edits of valid programs (family FamMutate of C03: every deletion,
+    # transposition and prefix, sampled insertions / substitutions, pairs of edits, headers with bodies that use
+    # the parameter): "accepted" is decided by the real parser, so each accepted one must never go wrong; runs
+    # are ended after 3000 yields (an edit can make a loop endless, which is not going wrong)
+    rnd = random.Random(common.seed())
+    npos = 260
+    e1 = {kind * 1000000 + i * 100 for kind in (1, 4, 5) for i in range(npos)}
+    for _ in range(2500 if chk.tier == "quick" else 20000):
+        e1.add(rnd.choice((2, 3)) * 1000000 + rnd.randrange(npos) * 100 + rnd.randrange(40))
+    e2 = set()
+    for _ in range(400 if chk.tier == "quick" else 6000):
+        e = rnd.choice((1, 2, 3, 4, 5)) * 1000000 + rnd.randrange(npos) * 100 + rnd.randrange(40)
+        e2.add(e * 10 + rnd.randrange(10))
+    nh = 18
+    hdr2 = {ln * 10000000 + c for ln in range(0, 3 if chk.tier == "quick" else 4) for c in range(nh ** ln)}
+    tlaset = lambda xs: "{" + ", ".join(str(x) for x in sorted(xs)) + "}"
+    resm = common.run_tlc("FamMutate", "FamMutate.cfg", defines={"TIER": chk.tier, "EDITS1": tlaset(e1), "EDITS2": tlaset(e2),
+                                                                 "HEADERS": "{}", "HEADERS2": tlaset(hdr2)}, timeout=1800)
+    chk.add_tlc(resm, "FamMutate")
+    edited = [{"id": "snd-mut-%d" % n, "stage": "run", "soundOnly": True, "mayReject": True, "inputs": ["input line", "7"], "stopAt": 3000,
+               "class": ("edited/header" if c["seed"] < 0 else "edited/seed%d/%d/%d" % (c["seed"], c["e1"] // 1000000, c["e2"] // 1000000)),
+               "src": c["src"], "expect": {"effects": [], "result": []}} for n, c in enumerate(resm.cases)]
+    chk.extra["token_edits_run_if_accepted"] = len(edited)
+    machine.replay_family(chk, exact + sound + extra + beyond + illformed + edited, deadline="60s")
     chk.extra["exact_oracle_cases"] = len(exact)
     chk.extra["never_goes_wrong_only_cases"] = len(sound)
     chk.assumptions += [
